@@ -155,9 +155,9 @@ ContentBases == { [World(2, Default.own, Default.up, Default.img, FALSE, Default
 (* a file or through the producer's directory) spells its executable through a variable; only the executable aspects   *)
 (* are perturbed (focus "exe").                                                                                        *)
 ExeVias == {"literal", "comp", "global", "platform"}
-ExeBases == { [World(n, Default.own, u, Default.img, FALSE, Default.up2) EXCEPT !.focus = "exe", !.c[k].exeVia = how] :
-                 n \in 1..2, u \in {"pfile-ref", "pdir-ref"}, k \in 1..2, how \in ExeVias \ {"literal"} }
-            \ {w \in {[World(1, Default.own, Default.up, Default.img, FALSE, Default.up2) EXCEPT !.focus = "exe"]} : TRUE}
+ExeBases == { [World(q[1], Default.own, q[2], Default.img, FALSE, Default.up2) EXCEPT !.focus = "exe", !.c[q[3]].exeVia = q[4]] :
+                 q \in { r \in (1..2) \X {"pfile-ref", "pdir-ref"} \X (1..2) \X (ExeVias \ {"literal"}) :
+                           r[3] <= r[1] /\ (r[1] = 1 => r[2] = "pfile-ref") } }
 
 ---------------------------------------------------------------------------
 (* The abstract identities *)
@@ -220,11 +220,14 @@ NoAsp == [kind |-> "none", at |-> 0]
 SibAt == 9          \* "position" of the sibling: not an index of the chain
 Other(x, s) == CHOOSE y \in s : y # x
 
-Init == /\ phase = "base" /\ a \in (Bases \cup NameBases \cup ContentBases) /\ b = a /\ asp = NoAsp
+Init == /\ phase = "base" /\ a \in (Bases \cup NameBases \cup ContentBases \cup ExeBases) /\ b = a /\ asp = NoAsp
 
 ContentFocus == {"ownContent", "upContent", "ownName", "identity"}
+ExeFocus == {"exe", "exeVia", "lit", "identity", "rename"}
 Pair(kind, at, w) == /\ phase = "base" /\ phase' = "pair" /\ a' = a /\ b' = w /\ asp' = [kind |-> kind, at |-> at]
-                     /\ (a.focus = "all" \/ kind \in ContentFocus)
+                     /\ \/ a.focus = "all"
+                        \/ a.focus = "content" /\ kind \in ContentFocus
+                        \/ a.focus = "exe" /\ kind \in ExeFocus
 
 SetC(i, f, v)   == [a EXCEPT !.c[i][f] = v]
 SetOwn(i, f, v) == [a EXCEPT !.c[i].own[f] = v]
@@ -252,6 +255,9 @@ ChangeImage(i) == /\ i <= a.n
                      \/ a.c[i].image # "none" /\ a.c[i].backend = "lsf" /\ Pair("image", i, SetC(i, "image", "none"))
 
 (* -- aspects no hash may depend on --------------------------------------- *)
+(* the same program, spelled differently (in the ordinary worlds: through a component variable only) *)
+ExecutableViaVariable(i, how) == /\ i <= a.n /\ how # a.c[i].exeVia /\ (how = "comp" \/ a.focus = "exe")
+                                 /\ Pair("exeVia", i, SetC(i, "exeVia", how))
 LiteralViaVariable(i) == i <= a.n /\ Pair("viaVar", i, SetC(i, "viaVar", TRUE))   \* same resolved arguments
 RenameOwnFile(i)      == HasOwn(i) /\ Pair("ownName", i, SetOwn(i, "fname", IF a.c[i].own.fname = "g1" THEN "f1" ELSE "g1"))
 RenameProducedFile(i) == HasUpA(i) /\ a.c[i].up.kind = "pfile" /\ Pair("upName", i, SetUp(i, "fname", "g2"))
@@ -280,6 +286,7 @@ RemoveProducedFile(i) == HasUpA(i) /\ a.c[i].up.kind = "pfile" /\ Pair("upMissin
 
 Next == \/ \E i \in 1..3, k \in {"k9", "B", "B.prefix", "B.nul", "B.nl", "B.big4k", "B.big64k", "empty"} :
                  ChangeOwnContent(i, k) \/ ChangeProducedContent(i, k)
+        \/ \E i \in 1..3, how \in {"literal", "comp", "global", "platform"} : ExecutableViaVariable(i, how)
         \/ \E i \in 1..3 : \/ ChangeExecutable(i) \/ ChangeLiteral(i)
                            \/ ChangeImage(i) \/ LiteralViaVariable(i) \/ RenameOwnFile(i) \/ RenameProducedFile(i)
                            \/ ChangeBackendOnly(i) \/ ChangeResources(i) \/ ChangeEnvironment(i)
@@ -299,7 +306,7 @@ Spec == Init /\ [][Next]_vars
 DirectKinds == {"exe", "lit", "ownContent", "ownMethod", "upContent", "upMethod", "image"}
 (* "does not depend on where the instance lives, on component or stage names, or on time" + everything that is not   *)
 (*  named by the "exactly when" (file names, spelling, back-end without image change, resources, environment)        *)
-IrrelevantKinds == {"viaVar", "ownName", "upName", "respell", "backendOnly", "resources", "environment", "move",
+IrrelevantKinds == {"viaVar", "exeVia", "ownName", "upName", "respell", "backendOnly", "resources", "environment", "move",
                     "rename", "stageName", "stageShift", "time", "replicate", "identity"}
 MissingKinds == {"ownMissing", "upMissing"}
 (* changes of the bystander: irrelevant for every component of the chain (x.at = SibAt is no chain index), relevant for it *)
